@@ -11,12 +11,12 @@ from ..digest import obj_digest
 TITLE = 'message grammar and ICAO selection'
 EXPLORER = 'E1'
 CLAUSES = ['C01.grammar', 'C01.order', 'C01.second_sct', 'C01.third_bkn', 'C01.no_zero_okta', 'C01.below_msa',
-           'C01.code_listed', 'C01.table_sorted']
+           'C01.code_listed', 'C01.table_sorted', 'C01.regrouped']
 RULE = ('family L: every okta tuple of length 1..4 over the representatives {0,2,3,5,8} (thorough: all '
         'oktas 0..8 to length 3) realised as flat decks 2000 ft apart, x MSA in {None, below all, exactly '
         'at each base, between each pair, above all} x buffer {0,1500}; family M: every 2x2 (thorough 2x3) '
         'micro table over a 9-entry cell menu around the MSA x MSA/buffer/okta0/okta8 variants; W: 17 '
-        'reference scenes + demo + hand-made. Each run is judged at the three levels. distinct_nontrivial '
+        'reference scenes + demo + hand-made + regroup scenes (thick deck / pause / thin deck: groups keep the slice ids with other hits). Each run is judged at the three levels. distinct_nontrivial '
         '= distinct (messages, tables) digests of runs that returned at least one cloud group')
 ASSUMPTIONS = ['heights below 100000 ft (three-digit codes), as the property states',
                'a group is matched to ANY listed row with the same code (okta>=1, base<MSA): accept-set oracle']
@@ -45,6 +45,9 @@ def run_case(case):
             continue
         msa = r.chunk.msa
         nontrivial = False
+        st, gt = pipeline.table_rows(r.chunk.slices), pipeline.table_rows(r.chunk.groups)
+        if [x['cluster_id'] for x in st] == [x['cluster_id'] for x in gt] and [x['okta'] for x in st] != [x['okta'] for x in gt]:
+            res['clauses']['C01.regrouped'] = res['clauses'].get('C01.regrouped', 0) + 1
         for w in pipeline.LEVELS:
             bad, ex = pipeline.check_message_grammar(r.msgs[w], getattr(r.chunk, w), msa)
             for c in ex:
